@@ -624,6 +624,11 @@ def step (d : State) (toks : List String) : State × String :=
     match d.srv, ms.toNat? with
     | some _, some _ => (d, "ok")
     | _, _ => (d, "bad-op")
+  | ["srvwait", us] =>
+    -- let time pass (microseconds since the last churn): timers of the tree store come due
+    match d.srv, us.toNat? with
+    | some _, some _ => (d, "ok")
+    | _, _ => (d, "bad-op")
   | ["srvchurn", n] =>
     -- n protocols on n different trees, each started and finished at once: n cleaners armed
     match d.srv, n.toNat? with
